@@ -60,12 +60,12 @@ func (c *Collector) Case(nontrivial bool, canon string, sample any, labels ...st
 	}
 }
 
-func (c *Collector) Label(l string) { c.mu.Lock(); c.labels[l]++; c.mu.Unlock() }
+func (c *Collector) Label(l string)           { c.mu.Lock(); c.labels[l]++; c.mu.Unlock() }
 func (c *Collector) LabelN(l string, n int64) { c.mu.Lock(); c.labels[l] += n; c.mu.Unlock() }
-func (c *Collector) Excluded()      { c.mu.Lock(); c.excluded++; c.mu.Unlock() }
-func (c *Collector) Note(s string)  { c.mu.Lock(); c.Notes = append(c.Notes, s); c.mu.Unlock() }
-func (c *Collector) Evals() int64   { c.mu.Lock(); defer c.mu.Unlock(); return c.evals }
-func (c *Collector) Distinct() int  { c.mu.Lock(); defer c.mu.Unlock(); return len(c.nt) }
+func (c *Collector) Excluded()                { c.mu.Lock(); c.excluded++; c.mu.Unlock() }
+func (c *Collector) Note(s string)            { c.mu.Lock(); c.Notes = append(c.Notes, s); c.mu.Unlock() }
+func (c *Collector) Evals() int64             { c.mu.Lock(); defer c.mu.Unlock(); return c.evals }
+func (c *Collector) Distinct() int            { c.mu.Lock(); defer c.mu.Unlock(); return len(c.nt) }
 
 type record struct {
 	Property   string           `json:"property"`
